@@ -334,12 +334,29 @@ impl<S: WebSocket, T: TimestampProvider> Task<S, T> {
         return Ok(());
     }
 
+    /// Wait for something that depends on the peer while winding down in an orderly way.
+    /// The keepalive no longer runs then, so a peer that dies at this point would never be
+    /// noticed: with keepalive configured, each such step gets the keepalive timeout.
+    /// Returns `None` if the peer took longer than that.
+    #[cfg(feature = "tokio-time")]
+    async fn peer_patience<F: Future>(&self, future: F) -> Option<F::Output> {
+        if self.keepalive_interval.is_some() {
+            self.keepalive_timeout.timeout(future).await.ok()
+        } else {
+            Some(future.await)
+        }
+    }
+    #[cfg(not(feature = "tokio-time"))]
+    async fn peer_patience<F: Future>(&self, future: F) -> Option<F::Output> {
+        Some(future.await)
+    }
+
     /// Wind down the multiplexor task.
     #[tracing::instrument(skip_all, level = "trace")]
     async fn wind_down(
         &self,
         should_drain_msg_rx: bool,
-        connection_broken: bool,
+        mut connection_broken: bool,
         mut tx_msg_rx: mpsc::UnboundedReceiver<Message>,
         mut dropped_flows_rx: mpsc::UnboundedReceiver<DroppedFlow>,
     ) {
@@ -369,10 +386,15 @@ impl<S: WebSocket, T: TimestampProvider> Task<S, T> {
             // terminate once existing frames are processed.
             while let Some(message) = tx_msg_rx.recv().await {
                 debug!("sending remaining frame after mux drop");
-                let r = poll_fn(|cx| self.ws.lock().poll_ready_unpin(cx))
+                let Some(r) = self
+                    .peer_patience(poll_fn(|cx| self.ws.lock().poll_ready_unpin(cx)))
                     .await
-                    .and_then(|()| self.ws.lock().start_send_unpin(message));
-                if let Err(e) = r {
+                else {
+                    warn!("Peer stopped taking our frames after mux drop");
+                    connection_broken = true;
+                    break;
+                };
+                if let Err(e) = r.and_then(|()| self.ws.lock().start_send_unpin(message)) {
                     warn!("Failed to send remaining frame after mux drop: {e}");
                     // Don't keep trying to send frames after an error
                     break;
@@ -382,14 +404,20 @@ impl<S: WebSocket, T: TimestampProvider> Task<S, T> {
             }
         }
         // This will flush the remaining frames already queued for sending as well
-        if connection_broken {
+        if !connection_broken
+            && self
+                .peer_patience(poll_fn(|cx| self.ws.lock().poll_close_unpin(cx)))
+                .await
+                .is_none()
+        {
+            warn!("Peer stopped taking our frames while closing");
+            connection_broken = true;
+        } else if connection_broken {
             // The peer may be gone for good (keepalive timeout, transport error) with our send
             // buffer full: the `Sink` would then stay `Pending` forever. Try once and move on,
             // so that our streams and callers get to see the end of the connection.
             poll_fn(|cx| self.ws.lock().poll_close_unpin(cx))
                 .now_or_never();
-        } else {
-            poll_fn(|cx| self.ws.lock().poll_close_unpin(cx)).await.ok();
         }
         // The above line only closes the `Sink`. Before we terminate connections,
         // we dispatch the remaining frames in the `Source` to our streams.
@@ -404,7 +432,13 @@ impl<S: WebSocket, T: TimestampProvider> Task<S, T> {
                 self.process_message(msg, true).await.ok();
             }
         } else {
-            while let Some(Ok(msg)) = poll_fn(|cx| self.ws.lock().poll_next_unpin(cx)).await {
+            // The peer is expected to answer our `Close` and end its side. We no longer send
+            // `Ping`s, but it can die now as well as before: each message may take as long as
+            // a `Pong` was allowed to.
+            while let Some(Some(Ok(msg))) = self
+                .peer_patience(poll_fn(|cx| self.ws.lock().poll_next_unpin(cx)))
+                .await
+            {
                 debug!("processing remaining message after closure {msg:?}");
                 self.process_message(msg, true).await.ok();
             }
